@@ -3,6 +3,8 @@ import Flowjaxv.Driver.Leaves
 import Flowjaxv.Driver.Tree
 import Flowjaxv.Driver.Misc
 import Flowjaxv.Driver.ArrTree
+import Flowjaxv.Driver.AdDrv
+import Flowjaxv.Driver.PyTree
 /-!
 Model driver: `lake env lean --run Driver.lean < ops.txt`.  One op per line in, one line out
 (`ERR <msg>` when the model rejects the op).
@@ -21,6 +23,8 @@ def dispatch (line : String) : String :=
       | "ctree" => ctree args
       | "tdist" => tdist args
       | "atree" => atree args
+      | "ad" => ad args
+      | "pytree" => pytree args
       | "ctor" => ctor args
       | "permute" => permute args
       | "permvalid" => permvalid args
